@@ -494,3 +494,75 @@ func F11(poolN, maxLen int, variants []string) []*Case {
 	}
 	return out
 }
+
+// ---------------------------------------------------------------- F12: named rules that always / never / sometimes succeed
+
+// F12: S refers to A (exactly once, so that -inline applies) in every operator context; A is
+// drawn from shapes that always succeed, never succeed, succeed without consuming, or record
+// tokens before failing; B is a helper. The generator special-cases references to rules that
+// "always succeed" and inlines rules referenced once.
+func F12(maxLen int, variants []string) []*Case {
+	A, B := func() *ag.Expr { return ag.N("A") }, func() *ag.Expr { return ag.N("B") }
+	a, b := func() *ag.Expr { return lit("a") }, func() *ag.Expr { return lit("b") }
+	sBodies := []func() *ag.Expr{
+		func() *ag.Expr { return ag.A(ag.S(A(), lit("x")), lit("y")) },
+		func() *ag.Expr { return ag.A(ag.S(lit("x"), A(), lit("y")), ag.S(lit("x"), lit("a"))) },
+		func() *ag.Expr { return ag.S(ag.U(ag.Not, A()), ag.D()) },
+		func() *ag.Expr { return ag.A(ag.S(ag.U(ag.And, A()), lit("a")), lit("b")) },
+		func() *ag.Expr { return ag.S(ag.U(ag.Opt, A()), lit("x")) },
+		func() *ag.Expr { return ag.A(ag.S(ag.U(ag.Cap, A()), lit("x")), ag.S(lit("a"), lit("y"))) },
+		func() *ag.Expr { return ag.S(ag.U(ag.Star, ag.S(lit("x"), A())), ag.U(ag.Not, ag.D())) },
+	}
+	aBodies := []func() *ag.Expr{
+		func() *ag.Expr { return ag.U(ag.Not, ag.U(ag.Star, a())) },       // never
+		func() *ag.Expr { return ag.U(ag.Not, ag.U(ag.Opt, B())) },        // never
+		func() *ag.Expr { return ag.U(ag.And, ag.U(ag.Star, a())) },       // always, empty
+		func() *ag.Expr { return ag.U(ag.Star, a()) },                     // always
+		func() *ag.Expr { return ag.A(a(), ag.E()) },                      // always
+		func() *ag.Expr { return ag.Action() },                            // always, token
+		func() *ag.Expr { return ag.U(ag.Not, B()) },                      // sometimes, empty
+		func() *ag.Expr { return ag.U(ag.And, B()) },                      // sometimes, empty
+		func() *ag.Expr { return ag.U(ag.Opt, B()) },                      // always
+		func() *ag.Expr { return ag.U(ag.Cap, ag.U(ag.Star, a())) },       // always, token
+		func() *ag.Expr { return ag.S(B(), lit("c")) },                    // records a token, may fail after it
+		func() *ag.Expr { return ag.S(ag.U(ag.Cap, b()), lit("c")) },      // records a token, may fail after it
+		func() *ag.Expr { return ag.S(ag.Action(), b(), lit("c")) },       // records a token, may fail after it
+		func() *ag.Expr { return ag.S(ag.U(ag.Not, ag.D())) },             // only at the end
+		func() *ag.Expr { return ag.S(ag.U(ag.Opt, a()), ag.U(ag.Not, b())) },
+	}
+	bBodies := []func() *ag.Expr{
+		func() *ag.Expr { return b() },
+		func() *ag.Expr { return ag.U(ag.Star, b()) },
+		func() *ag.Expr { return ag.A(b(), ag.E()) },
+	}
+	var out []*Case
+	idx := 0
+	seen := map[string]bool{}
+	for _, sb := range sBodies {
+		for _, ab := range aBodies {
+			for _, bb := range bBodies {
+				g := ag.G(fmt.Sprintf("F12/%d", idx), ag.Rule{Name: "S", Body: sb()}, ag.Rule{Name: "A", Body: ab()}, ag.Rule{Name: "B", Body: bb()})
+				idx++
+				reach := ag.Analyze(g).Reachable()
+				var keep []ag.Rule
+				for _, r := range g.Rules {
+					if reach[r.Name] {
+						keep = append(keep, r)
+					}
+				}
+				g.Rules = keep
+				g.Number()
+				if !wellFormed(g) {
+					continue
+				}
+				k := ag.Show(g)
+				if seen[k] {
+					continue
+				}
+				seen[k] = true
+				out = append(out, &Case{Family: "F12", G: g, Sigma: strs('a', 'b', 'x', 'c'), MaxLen: maxLen, Variants: variants, Mode: spec.ModeBehaviour})
+			}
+		}
+	}
+	return out
+}
